@@ -197,10 +197,11 @@ class _RatNorm:
     atoms: variables, UF applications, If-terms) of a term built from + - * /; decides
     rational-function identities without the solver"""
 
-    def __init__(self, atomize_affine=False):
+    def __init__(self, atomize_affine=False, shared=None):
         self.memo = {}
         self.atomize_affine = atomize_affine
         self._aff = {}
+        self.shared = shared or {}       # id -> term: compound subterms that occur on both sides, kept as atoms
 
     def nd(self, e):
         k = e.get_id()
@@ -249,6 +250,8 @@ class _RatNorm:
             return ({(): fr} if fr != 0 else {}), one
         kind = e.decl().kind()
         ch = e.children()
+        if e.get_id() in self.shared:
+            return {(e.get_id(),): Fraction(1)}, one
         if kind in (z3.Z3_OP_ADD, z3.Z3_OP_SUB):
             n, d = self.nd(ch[0])
             for c in ch[1:]:
@@ -276,17 +279,58 @@ class _RatNorm:
         return {(e.get_id(),): Fraction(1)}, one
 
 
+_ARITH_OPS = None
+
+
+def _shared_subterms(sa, sb):
+    """compound arithmetic subterms (sums, products, quotients) that occur in both terms (terms are hash-consed, so
+    occurrence is identity); abstracting them keeps the polynomials small.  Sound: an identity that holds with the shared
+    subterms read as opaque atoms holds for their values."""
+    # quotients only: a shared product of atoms next to its expanded factors would hide a polynomial identity
+    ops = (z3.Z3_OP_DIV,)
+
+    def subterms(e):
+        out, stack = {}, [e]
+        while stack:
+            t = stack.pop()
+            if t.get_id() in out:
+                continue
+            out[t.get_id()] = t
+            stack.extend(t.children())
+        return out
+    A, B = subterms(sa), subterms(sb)
+    ra, rb = sa.get_id(), sb.get_id()
+    return {i: t for i, t in A.items() if i in B and i not in (ra, rb) and z3.is_app(t) and t.decl().kind() in ops
+            and not z3.is_rational_value(t)}
+
+
 def is_zero_by_ratnorm(a, b):
     """a == b as rational functions (denominators are covered by the definedness conditions)"""
-    sa, sb = z3.simplify(a), z3.simplify(b)
-    for atomize in (True, False):
+    # sort_sums: commuted sums inside UF arguments / atomised affine sums become the same term (atoms are keyed by term identity)
+    sa, sb = z3.simplify(a, sort_sums=True), z3.simplify(b, sort_sums=True)
+    if sa.eq(sb):
+        return True
+    for atomize, share in ((True, True), (True, False), (False, False)):
         try:
-            rn = _RatNorm(atomize_affine=atomize)
+            rn = _RatNorm(atomize_affine=atomize, shared=_shared_subterms(sa, sb) if share else None)
             na, da = rn.nd(sa)
             nb, db = rn.nd(sb)
-            if len(_padd(_pmul(na, db, 60000), _pmul(nb, da, 60000), -1)) == 0:
+            res_ = _padd(_pmul(na, db, 60000), _pmul(nb, da, 60000), -1)
+            if len(res_) == 0:
                 return True
-        except (z3.Z3Exception, RecursionError, _PolyTooBig):
+            if os.environ.get("SVX_RN_DEBUG"):
+                print("RN residual (atomize=%s share=%s): %d monomials" % (atomize, share, len(res_)), flush=True)
+                atoms = {}
+                for mono in list(res_)[:3]:
+                    for aid in mono:
+                        t_ = rn.memo.get(("atom", aid), (rn.shared.get(aid),))[0]
+                        atoms[aid] = _short(t_, 160) if t_ is not None else "?"
+                    print("   mono", mono, res_[mono], flush=True)
+                for aid, tx in atoms.items():
+                    print("   atom", aid, tx, flush=True)
+        except (z3.Z3Exception, RecursionError, _PolyTooBig) as e_:
+            if os.environ.get("SVX_RN_DEBUG"):
+                print("RN exception", type(e_).__name__, flush=True)
             continue
     return False
 
